@@ -1942,7 +1942,13 @@ class TestGraph(object):
         pre_node.results = list(test_node.results)
         previous_tries = len(pre_node.results)
         pre_node.started_worker = worker
-        status = await self.runner.run_test_node(pre_node)
+        # the configuration already occupies one try of the installation for all other workers
+        node_result = {"name": test_node.params["name"], "status": "UNKNOWN"}
+        test_node.results += [node_result]
+        try:
+            status = await self.runner.run_test_node(pre_node)
+        finally:
+            test_node.results.remove(node_result)
         if not status:
             logging.error(
                 "Could not configure the installation for %s on %s",
